@@ -30,7 +30,7 @@ META = {
         "quick": {"evaluations": 5000, "distinct_nontrivial": 800, "tables": {"route/mode": 1500, "route/prefuse-contracted": 600, "route/fuse-free-before-after": 600, "kind/fermionic": 1000, "feature/sole-free-leg-prefused": 60, "feature/misaligned": 300, "feature/many-legs": 500, "form/align_axes-negative-axis-of-second-operand-ranks-differ": 1000}},
         "thorough": {"evaluations": 200000, "distinct_nontrivial": 30000, "tables": {"route/prefuse-contracted": 30000, "route/fuse-free-before-after": 30000, "feature/sole-free-leg-prefused": 3000}},
     },
-    "wall": {"quick": 300, "thorough": 1700},
+    "wall": {"quick": 900, "thorough": 1700},
 }
 
 
@@ -263,8 +263,9 @@ def case(ctx, rng, manylegs=False):
 def run(ctx):
     hooks = Hooks(ctx)
     hooks.install_plan_hook()
-    for _, rng in ctx.cases("pairs", ctx.budget(48000, 900000)):
-        ctx.run_case(case, ctx, rng)
+    # small stream first: the large one may run into the wall-clock cap of the thorough tier
     for _, rng in ctx.cases("many-legs", ctx.budget(1200, 24000)):
         ctx.run_case(case, ctx, rng, True)
+    for _, rng in ctx.cases("pairs", ctx.budget(48000, 900000)):
+        ctx.run_case(case, ctx, rng)
     hooks.uninstall()
